@@ -126,6 +126,8 @@ func checkCase(c *Case, count bool) error {
 		// the other entry points that route a request to its route: Router.Lookup (with a writer, and with none when only the
 		// route is wanted) followed by Close, and Router.Reverse
 		fw := rt.Writer(w, req)
+		// a long-lived read-only transaction is one more way to the same lookups (Txn.Lookup, Txn.Reverse; Iter.Reverse hands out a new sequence value per call and is not measured)
+		rtx := f.Txn(false)
 		for _, ep := range []struct {
 			name string
 			fn   func()
@@ -141,6 +143,12 @@ func checkCase(c *Case, count bool) error {
 				}
 			}},
 			{"Router.Reverse", func() { f.Reverse(q.Method, q.Host, q.Path) }},
+			{"Txn(read).Reverse", func() { rtx.Reverse(q.Method, q.Host, q.Path) }},
+			{"Txn(read).Lookup(w, r) + Close", func() {
+				if _, cc, _ := rtx.Lookup(fw, req); cc != nil {
+					cc.Close()
+				}
+			}},
 		} {
 			for i := 0; i < 5; i++ {
 				ep.fn()
@@ -156,10 +164,12 @@ func checkCase(c *Case, count bool) error {
 				stats.Class("entry-point:" + ep.name)
 			}
 			if min >= runs {
+				rtx.Abort()
 				return fmt.Errorf("options %+v routes(%s)=%q request host=%q path=%q matching %q: %s makes %d heap allocations in %d calls in each of 3 measurements (after warm-up, GC off)",
 					c.G, q.Method, pats, q.Host, q.Path, pats[want.Route], ep.name, min, runs)
 			}
 		}
+		rtx.Abort()
 	}
 	return nil
 }
